@@ -60,7 +60,17 @@ var c01Extras = map[string]string{
 	"x_upper":       "{{ 'abc'|upper }}",
 	"x_sbx_inc":     "s[{% include 'x_plain' sandboxed %}|{% include 'x_upper' sandboxed %}|{% for i in [1,2] %}{% include 'x_upper' sandboxed %}{% endfor %}]",
 	"x_unlisted":    "{{ 'a-b'|replace('-', '+') }}{{ {'k': 1}|keys|join }}{{ [3,1]|merge([2])|join(',') }}",
+	// the same struct type reached as a value and through a pointer, in separate templates: the
+	// order in which a process meets the two forms must not matter
+	"x_meth_v": "[{{ c01mv.Label }}|{{ c01mv.Twice }}|{{ c01mv.Name }}]",
+	"x_meth_p": "[{{ c01mp.Label }}|{{ c01mp.Twice }}|{{ c01mp.Name }}]",
+	// a relative parent name; the parent is replaced by registrations during the history
+	"d/x_rel_child": "{% extends './x_rel_base' %}{% block b %}child{{ parent() }}{% endblock %}",
+	"d/x_rel_base":  "ZERO[{% block b %}0{% endblock %}]",
+	"d/x_rel_inc":   "<{% include './x_rel_base' %}>",
 }
+
+var c01RelBases = []string{"ONE[{% block b %}1{% endblock %}]", "TWO[{% block b %}2{% endblock %}|{{ 1 + 1 }}]", "THREE{% block b %}{% endblock %}"}
 
 func checkC01(c C01Case) error {
 	_, err := runC01(c)
@@ -80,10 +90,13 @@ func runC01(c C01Case) (c01Stats, error) {
 		e, _ := buildEngine(spec)
 		engs[i] = &c01Eng{e: e, spec: spec, cacheOn: true, rendered: map[string]int{}}
 	}
+	// a held handle keeps the source it was loaded from; whatever it extends or includes is
+	// resolved when it is rendered, i.e. against the engine's configuration at that time
 	type heldT struct {
 		t    *twig.Template
-		spec EngSpec
+		eng  int
 		name string
+		src  string
 	}
 	var held []heldT
 	var last *C01Op
@@ -130,13 +143,22 @@ func runC01(c C01Case) (c01Stats, error) {
 			}
 		case "hold":
 			// keep a handle obtained from Load; it is rendered later, whatever happened in between
-			if _, inLoader := en.spec.Templates[op.Name]; !inLoader {
+			// (a registered name can be held while the cache serves it)
+			src, inLoader := en.spec.Templates[op.Name]
+			if en.cacheOn {
+				for _, r := range en.spec.Registered {
+					if r[0] == op.Name {
+						src, inLoader = r[1], true
+					}
+				}
+			}
+			if !inLoader {
 				continue
 			}
 			var tp *twig.Template
 			r := guard(func() (string, error) { t, err := en.e.Load(op.Name); tp = t; return "", err })
 			if !r.Failed() && tp != nil {
-				held = append(held, heldT{tp, en.spec, op.Name})
+				held = append(held, heldT{tp, op.Eng, op.Name, src})
 			}
 		case "renderHeld":
 			if len(held) == 0 {
@@ -147,7 +169,23 @@ func runC01(c C01Case) (c01Stats, error) {
 				h = held[len(held)-1]
 			}
 			ctxI := op.Ctx % len(c.Ctxs)
-			want, err := pristine(OneShot{Eng: h.spec, Call: "loadRender", Name: h.name, Ctx: c.Ctxs[ctxI]})
+			// the pristine counterpart: the owning engine's present configuration, with the
+			// held template's own source as it was when the handle was taken
+			hspec := engs[h.eng].spec
+			tm := make(map[string]string, len(hspec.Templates)+1)
+			for k, v := range hspec.Templates {
+				tm[k] = v
+			}
+			tm[h.name] = h.src
+			hspec.Templates = tm
+			var regs [][2]string
+			for _, r := range hspec.Registered {
+				if r[0] != h.name {
+					regs = append(regs, r)
+				}
+			}
+			hspec.Registered = regs
+			want, err := pristine(OneShot{Eng: hspec, Call: "loadRender", Name: h.name, Ctx: c.Ctxs[ctxI]})
 			if err != nil {
 				return st, fmt.Errorf("harness: %v", err)
 			}
@@ -155,7 +193,7 @@ func runC01(c C01Case) (c01Stats, error) {
 			st.checked++
 			st.nontrivial = true
 			if !got.Same(want) {
-				return st, fmt.Errorf("op %d: rendering the template handle obtained earlier from Load(%q) returned %v; a fresh engine in a fresh process returns %v\nsource: %s", i, h.name, got, want, q(trunc(h.spec.Templates[h.name])))
+				return st, fmt.Errorf("op %d: rendering the template handle obtained earlier from Load(%q) returned %v; a fresh engine in a fresh process returns %v\nsource: %s", i, h.name, got, want, q(trunc(h.src)))
 			}
 			if got.Err {
 				failuresSince++
@@ -229,6 +267,8 @@ func genC01(t *rapid.T) C01Case {
 		}
 		c.Worlds = append(c.Worlds, srcs)
 		c.DefaultPolicy = append(c.DefaultPolicy, rapid.IntRange(0, 2).Draw(t, "defaultpolicy") == 0)
+		sc.Ctx.Set("c01mv", ZT(Hash([]string{"Name", "N"}, []*E{Str("v<" + fmt.Sprint(w)), Int(int64(w + 2))}), "meth"))
+		sc.Ctx.Set("c01mp", ZT(Hash([]string{"Name", "N"}, []*E{Str("p&" + fmt.Sprint(w)), Int(int64(w + 5))}), "ptrmeth"))
 		c.Ctxs = append(c.Ctxs, sc.Ctx)
 		for _, s := range srcs {
 			allSources = append(allSources, s)
@@ -240,7 +280,29 @@ func genC01(t *rapid.T) C01Case {
 		eng := rapid.IntRange(0, nw-1).Draw(t, "eng")
 		names := sortedTemplateNames(c.Worlds[eng])
 		op := C01Op{Eng: eng}
-		switch k := rapid.IntRange(0, 19).Draw(t, "opkind"); {
+		switch k := rapid.IntRange(0, 22).Draw(t, "opkind"); {
+		case k == 20:
+			// replace the parent that a relative extends / include resolves to, then render the
+			// templates that name it
+			src := rapid.SampledFrom(c01RelBases).Draw(t, "relbase")
+			c.Ops = append(c.Ops, C01Op{Op: "register", Eng: eng, Name: "d/x_rel_base", Src: src},
+				C01Op{Op: "render", Eng: eng, Name: rapid.SampledFrom([]string{"d/x_rel_child", "d/x_rel_child", "d/x_rel_inc"}).Draw(t, "relname"), Ctx: eng})
+			continue
+		case k == 21:
+			// a handle to a registered template is kept, the name is registered again with
+			// another source, something else is parsed, and the old handle is rendered
+			name := fmt.Sprintf("reg%d", rapid.IntRange(0, 2).Draw(t, "regname"))
+			srcs := rapid.Permutation([]string{"H1{{ 1 + 1 }}{% if true %}y{% endif %}", "H2{% for i in [1,2] %}{{ i }}{% endfor %}", "H3{{ 'x'|upper }}"}).Draw(t, "heldsrcs")
+			c.Ops = append(c.Ops, C01Op{Op: "register", Eng: eng, Name: name, Src: srcs[0]}, C01Op{Op: "hold", Eng: eng, Name: name},
+				C01Op{Op: "register", Eng: eng, Name: name, Src: srcs[1]},
+				C01Op{Op: "parse", Eng: eng, Src: rapid.SampledFrom([]string{"UNRELATED{{ 7 }}", "{% if true %}other{% endif %}", srcs[2]}).Draw(t, "between")},
+				C01Op{Op: "renderHeld", Eng: eng, N: 1000003, Ctx: eng}, C01Op{Op: "render", Eng: eng, Name: name, Ctx: eng})
+			continue
+		case k == 22:
+			op.Op = "render"
+			op.Name = rapid.SampledFrom([]string{"x_meth_v", "x_meth_p"}).Draw(t, "methname")
+			op.Ctx = eng
+
 		case k <= 7:
 			op.Op = rapid.SampledFrom([]string{"render", "render", "renderTo", "loadRender"}).Draw(t, "path")
 			if rapid.IntRange(0, 2).Draw(t, "main") == 0 {
@@ -303,7 +365,7 @@ func genC01(t *rapid.T) C01Case {
 	return c
 }
 
-const c01Rule = "histories of 5-40 (thorough 200) operations over 1-3 engines, each holding a template set from the structural generators (control flow, inheritance with parent(), include chains, macro libraries in five call forms, apply/spaceless) plus failing templates (syntax error, unclosed tag, include of a missing template, include of a broken template, division by zero) and a template above 4096 bytes; operations: Render / RenderTo / Load+Render, repeat of the previous call, ParseTemplate+Render of valid, invalid, small and > 4096-byte sources (also of other engines' sources), RegisterString, SetCache, SetDebug, runtime.GC once or twice; after every render the result is compared with a pristine engine in a fresh OS process; non-trivial = the checked render is preceded by a render of the same cached template, a failing render or a GC; distinct by history"
+const c01Rule = "histories of 5-40 (thorough 200) operations over 1-3 engines, each holding a template set from the structural generators (control flow, inheritance with parent(), include chains, macro libraries in five call forms, apply/spaceless) plus failing templates (syntax error, unclosed tag, include of a missing template, include of a broken template, division by zero) and a template above 4096 bytes; operations: Render / RenderTo / Load+Render, repeat of the previous call, ParseTemplate+Render of valid, invalid, small and > 4096-byte sources (also of other engines' sources), RegisterString (also of a name whose old handle is still held, and of the parent behind a relative extends/include), a struct reached by value and by pointer in separate templates, SetCache, SetDebug, runtime.GC once or twice; after every render the result is compared with a pristine engine in a fresh OS process; non-trivial = the checked render is preceded by a render of the same cached template, a failing render or a GC; distinct by history"
 
 func TestC01History(t *testing.T) {
 	r := NewRec(t, "C01", c01Rule)
